@@ -310,12 +310,15 @@ fn check_last_word(sim: &mut Sim, final_: bool) {
                 })
                 .map(|a| a.word.clone())
                 .collect();
-            if !foreign.is_empty() {
-                let f2: Vec<String> = file.iter().filter(|w| !foreign.contains(w)).cloned().collect();
+            // (this file's diagnostics may date from before the last k of those additions)
+            for k in 0..foreign.len() {
+                let late = &foreign[k..];
+                let f2: Vec<String> = file.iter().filter(|w| !late.contains(w)).cloned().collect();
                 let r = ref_diags(sim, &doc.text, &doc.lang, &settings, &user, &f2).unwrap_or_default();
                 if strip_ignorable(sim, doc, &r) == observed {
                     class = "file_dict_name_collision".into();
                     why = format!("they are the diagnostics from before words were added, through a command naming another file, to the dictionary file {my_path} that both files share");
+                    break;
                 }
             }
         }
